@@ -179,6 +179,9 @@ fixed("C03", "D50", "^fix: a line rewritten on the merged side", "main holds ses
 fixed("C17", "D52", "^fix: file names that start with a double quote", "a tracked file whose name begins and ends with a double quote and contains no whitespace (`\"x\"`, `\"\"`) gets an AI line: the path line was written unquoted, every reader strips one quote from each end of a line that starts with a quote, and the note read back listed another file name (serialize -> parse was not the identity; the AI line was reported human)", "c17.file_name_wrapped_in_double_quotes")
 fixed("C20", "D72", "^fix: checkpoint paths containing", "<repo>/vendor/inner is an independent repository nested in <repo>; an agent first reports an edit of <repo>/a.txt, then a report started in the inner repository names `../../dir/b.txt` (a file of the outer repository, by a relative path): exit 0 and `Cross-repo checkpoint ... completed`, but dir/b.txt was recorded nowhere (the un-normalised name vendor/inner/../../dir/b.txt matched nothing once the working log already held an agent checkpoint; the same for `sub/../a.txt` inside one repository)", "c20.cross_repo_report_with_dotdot_path_after_earlier_agent_report")
 fixed("C01", "D73", "^fix: status post-filter lists untracked", "one agent report names 1001 new files under a directory that does not exist in HEAD; commit => the note listed no file at all and every line was blamed on a person (above 1000 paths `git status` runs without pathspecs and collapses the wholly untracked directory into one `? gen/` record that no reported path matched; with 1000 files every file was recorded)", "c01.agent_creates_more_than_1000_files_in_a_new_directory")
+open_("C04", "D75", "C04/missing-from-note@f.txt:4", ["C03/unsound-note@f.txt:2", "C04/lost@f.txt:4", "C03/unsound-blame@f.txt:2"],
+      "history: an agent adds two lines below line 1 of f.txt and a person adds one line above them; everything is staged; then, in the work tree only, the person deletes line 1 (not staged); `git commit` from the index => the note lists lines 2-3 instead of 3-4: the person's line is credited to the session and the agent's second line is lost. The work-tree -> commit line translation of a partial commit only subtracts lines the work tree ADDS relative to the commit; lines it REMOVES (an unstaged deletion, or the old side of a replacement hunk such as a staged line reworded next to left-out lines) are not added back. A pure 1:1 rewording of a staged line, and unstaged insertions alone, are handled",
+      "c04.unstaged_deletion_above_committed_ai_lines", ["unstaged_replacement_hunks"], affects=[])
 open_("C20", "D53", "C20/edited-file-not-recorded-in-its-repository@nested-repo", [],
       "payload: agent-v1 ai_agent report, hook started in <repo>, edited_filepaths = [<repo>/vendor/inner/a.txt] where vendor/inner is an independent repository nested in the outer work tree => exit 0, but the edit is recorded neither in the inner repository (which contains the file) nor anywhere else (files of sibling repositories are routed to their own repository; nested ones are taken for files of the outer work tree and then dropped)",
       "c20.file_of_nested_repository_edited_from_outer_repository", ["probe:nested-repo"], affects=[])
